@@ -483,6 +483,9 @@ const (
 	// disconnected; its callback then gets the timeout error)
 	kVolThenTO emitKind = 'V'
 	kTOThenVol emitKind = 'W'
+	// an emit whose ack timeout (100 ms) fires DURING the outage: it is withdrawn from the offline buffer, its
+	// callback gets the timeout error - and nothing else leaves the buffer with it
+	kShortTO emitKind = 'x'
 )
 
 // offline: the connection is lost; while the socket is disconnected the application emits `during`
@@ -569,6 +572,16 @@ func offlineScenario2(name, before, during, after string, bound int, hello ...bo
 						}
 					})
 				})
+			case kShortTO:
+				sock.Timeout(100*time.Millisecond).Emit("ma", tag, func(err error, reply string) {
+					v.Do(func() {
+						if err != nil {
+							acks = append(acks, "ERR:"+tag)
+						} else {
+							acks = append(acks, reply)
+						}
+					})
+				})
 			case kAckTO:
 				sock.Timeout(4*time.Minute).Emit("ma", tag, func(err error, reply string) {
 					v.Do(func() {
@@ -598,7 +611,8 @@ func offlineScenario2(name, before, during, after string, bound int, hello ...bo
 		for i := 0; i < len(during); i++ {
 			tag := fmt.Sprintf("d%d%c", i, during[i])
 			emit(during[i], tag)
-			if k := emitKind(during[i]); k == kVolatile || k == kVolThenTO || k == kTOThenVol {
+			if k := emitKind(during[i]); k == kVolatile || k == kVolThenTO || k == kTOThenVol || k == kShortTO {
+				// (kShortTO: not volatile, but timed out and withdrawn before the connection is back: judged alike)
 				volatileOffline = append(volatileOffline, tag)
 			} else {
 				want = append(want, tag)
@@ -640,7 +654,7 @@ func offlineScenario2(name, before, during, after string, bound int, hello ...bo
 			}
 			for _, tag := range volatileOffline {
 				if count[tag] > 0 {
-					r.Violate("offline: volatile event emitted while disconnected was delivered", "%s: %s", tag, what)
+					r.Violate("offline: volatile (or already timed-out) event emitted while disconnected was delivered", "%s: %s", tag, what)
 				}
 			}
 			for _, tag := range want {
@@ -689,7 +703,7 @@ func offlineScenario2(name, before, during, after string, bound int, hello ...bo
 				}
 			}
 			for _, part := range []string{before, during, after} {
-				nAck += strings.Count(part, "V") + strings.Count(part, "W")
+				nAck += strings.Count(part, "V") + strings.Count(part, "W") + strings.Count(part, "x")
 			}
 			if len(acks) != nAck {
 				r.Violate("offline: ack callback of a buffered emit not invoked", "%d of %d acks; %s", len(acks), nAck, what)
@@ -879,6 +893,9 @@ func scenarios(tier string) []*vx.Scenario {
 		offlineScenario2("offline/before=pv-during=at-after=pv", "pv", "at", "pv", b),
 		offlineScenario2("offline/before=a-during=pvp-after=t", "a", "pvp", "t", b),
 		offlineScenario2("offline/during=pp", "", "pp", "", b+1),
+		offlineScenario2("offline/during=pxp-ack-timeout-fires-during-the-outage", "", "pxp", "", b),
+		offlineScenario2("offline/during=xpa-first-ack-id-times-out-during-the-outage", "", "xpa", "p", b),
+		offlineScenario2("offline/before=a-during=pxpt-after=p", "a", "pxpt", "p", b),
 		offlineScenario2("offline/during=pVpW-volatile-with-timeout", "", "pVpW", "", b),
 		offlineScenario2("offline/before=V-during=Wp-after=V", "V", "Wp", "V", b),
 		offlineScenario2("offline/during=pa-server-greets-with-ack-request", "", "pa", "", b+1, true),
